@@ -248,13 +248,20 @@ fn isolated(threads: usize, rounds: usize, yield_every: u64) -> Result<(u64, Str
 }
 
 /// readers print cells (incl. a cell that contains itself) while writers assign
-fn readers_writers(threads: usize, rounds: usize, yield_every: u64) -> Result<(u64, String), String> {
+fn readers_writers(kind: usize, threads: usize, rounds: usize, yield_every: u64) -> Result<(u64, String), String> {
     let interp = Interpreter::with_stdlib();
-    // a cell holding an array that holds the cell itself, plus a plain cell nested in a cell
-    let setup = "c := mut any 0; c = [c, 1]; d := mut mut int mut 5; (c, d)";
+    // a cell that contains itself through an array / a tuple / a struct / another cell, plus a cell nested in a cell
+    let (first, again) = match kind % 4 {
+        0 => ("c = [c, 1]", "c = [c, *i]"),
+        1 => ("c = (c, 1)", "c = (c, *i)"),
+        2 => ("c = struct{me := c, n := 1}", "c = struct{me := c, n := *i}"),
+        _ => ("c = mut any c", "c = mut any [c, *i]"),
+    };
+    let setup = format!("c := mut any 0; {first}; d := mut mut int mut 5; (c, d)");
+    let setup = setup.as_str();
     let Outcome::Value(Variable::Tuple(cells)) = real::parse_exec_in(&interp, setup, 10_000).0 else { return Err("setup rejected".into()) };
     let reader = parse_function("(c: mut any, d: mut mut int, n: int) -> int { i := mut 0; t := mut 0; while *i < n { i += 1; t += std.len(std.convert.to_string(c)) + std.len(std.convert.to_string(d)); } return *t }").ok_or("reader rejected")?;
-    let writer = parse_function("(c: mut any, d: mut mut int, n: int) -> int { i := mut 0; while *i < n { i += 1; c = [c, *i]; d = mut *i; } return *i }").ok_or("writer rejected")?;
+    let writer = parse_function(&"(c: mut any, d: mut mut int, n: int) -> int { i := mut 0; while *i < n { i += 1; AGAIN; d = mut *i; } return *i }".replace("AGAIN", again).as_str()).ok_or("writer rejected")?;
     let barrier = Arc::new(Barrier::new(threads));
     let mut handles = Vec::new();
     for t in 0..threads {
@@ -273,7 +280,7 @@ fn readers_writers(threads: usize, rounds: usize, yield_every: u64) -> Result<(u
     for h in handles {
         h.join().map_err(|_| "worker thread died".to_string())??;
     }
-    Ok(((threads * rounds) as u64, format!("{threads} threads ({} printing, {} assigning) x {rounds} rounds on a self-containing cell and a nested cell", threads.div_ceil(2), threads / 2)))
+    Ok(((threads * rounds) as u64, format!("{threads} threads ({} printing, {} assigning) x {rounds} rounds on a cell containing itself through {} and a nested cell", threads.div_ceil(2), threads / 2, ["an array", "a tuple", "a struct", "a cell"][kind % 4])))
 }
 
 /// the same parsed Code executed from several threads (fresh state per exec)
@@ -317,7 +324,7 @@ pub fn child(spec: &str) {
     } else {
         match scenario {
             "isolated" => isolated(threads, size, yld),
-            "readers" => readers_writers(threads, size, yld),
+            r if r.starts_with("readers") => readers_writers(r[7..].parse().unwrap_or(0), threads, size, yld),
             "code" => shared_code(threads, size),
             other => Err(format!("unknown scenario {other}")),
         }
@@ -354,7 +361,7 @@ pub fn run(cfg: &Cfg, rep: &mut Report) {
         let (scenario, size) = match rng.below(10) {
             0..=5 => (format!("cell{}", rng.below(OPS.len())), *rng.pick(&[3usize, 10, 50, 200, 1000])),
             6 | 7 => ("isolated".to_string(), *rng.pick(&[1usize, 3, 10])),
-            8 => ("readers".to_string(), *rng.pick(&[5usize, 30, 100])),
+            8 => (format!("readers{}", rng.below(4)), *rng.pick(&[5usize, 30, 100])),
             _ => ("code".to_string(), *rng.pick(&[5usize, 50])),
         };
         let spec = format!("{scenario}:{threads}:{size}:{yld}");
